@@ -31,6 +31,8 @@ class LazyList:
         return gen()
 
     def __bool__(self):
+        if self.generated:
+            return True
         try:
             next(self)
             return True
